@@ -37,6 +37,7 @@ class Model:
     def __init__(self, fb):
         self.fb = fb
         self.flow = Flow(fb)
+        self.flow.relabel_alloc_fns = frozenset(("data_access::DataAccessDyn::borrows", "data_access::DataAccessDyn::borrow_muts"))
         self.errors = []
         self._cg = None
         self._reach = {}
@@ -373,6 +374,24 @@ class Model:
         receive site per construction of the wrapper, in the body that hands it the receiver"""
         sig = self.fb.fns.get(b.id) or {}
         adt = (sig.get("impl_self") or "").split("<")[0].lstrip("&").strip()
+        # a private generic helper that only turns a receiver it is given into a stream
+        # (`fn receiver_stream<T>(mut rx: Receiver<T>) -> impl Stream { stream::poll_fn(move |cx| rx.poll_recv(cx)) }`), called
+        # with different receivers: one receive site per call of the helper
+        root = self.fb.bodies.get(b.root)
+        rsig = self.fb.fns.get(b.root) or {}
+        if b.kind == "closure" and root is not None and root.kind == "fn" and root.id != b.id and not rsig.get("public") and \
+                "Stream" in ((rsig.get("output") or {}).get("s") or ""):
+            ps = [x for x in self.flow.sources_operand(b, t["args"][0], (), "prov@" + root.id)]
+            pidx = [x[2] for x in ps if x.kind == "param" and x[1] == root.id and not x[3]]
+            sites = [(c2, b2, t2) for (c2, b2, t2) in self.flow.call_sites().get(root.id, []) if not self.fb.is_test_body(c2)]
+            if len(pidx) == 1 and len(ps) == 1 and len(sites) >= 2 and len(list(root.calls())) <= 3:
+                out = []
+                for (c2, b2, t2) in sites:
+                    if pidx[0] - 1 < len(t2["args"]):
+                        roles, other = self.receiver_role(c2, t2["args"][pidx[0] - 1])
+                        out.append({"body": c2, "bb": b2, "t": {"args": [t2["args"][pidx[0] - 1]], "dest": t2["dest"]}, "roles": roles,
+                                    "other": other, "fn": p, "lifted": True})
+                return out
         if not adt or self.flow.local_stream_impl(adt) is not b:
             return []
         fields = set()
